@@ -1380,7 +1380,10 @@ def replay(ctx, rep):
 SHAPES_SMALL = [(), (1,), (2,), (1, 1), (2, 1), (1, 2), (2, 2)]
 VARIANTS = ['same', 'repmax', 'representation-only', 'fixed-changed', 'value-changed', 'grid-extended',
             'grid-shrunk', 'grid-reordered', 'param-added-scalar', 'param-added-array', 'param-removed',
-            'unpacked-set-changed', 'type-str', 'type-none', 'shape-changed']
+            'unpacked-set-changed', 'type-str', 'type-none', 'shape-changed', 'value-close']
+CLOSE_PAIRS = [(4e-12, 4e-13), (1e-9, 5e-9), (2.4e9, 2.4e9 + 2e4), (0.3, 0.30000000000000004), (1.0, 1.0 + 2.0 ** -40),
+               (0.0, 1e-12), (-3e-10, 3e-10), ([1e-9, 2e-9], [1e-9, 3e-9]), ([5.0, 1e-10], [5.0, 2e-10]),
+               (1e300, 1.000001e300)]
 OUT_REPS = ['int', 'float', 'np.int16', 'np.int32', 'np.int64', 'np.float32', 'np.float64']
 RM_REPS = ['int', 'np.int8', 'np.int16', 'np.uint16', 'np.int32', 'np.int64']
 
@@ -1450,6 +1453,17 @@ def make_variant(rng, p1, kind):
     elif kind == 'unpacked-set-changed' and 'fl' in fx and names and nvar_of(p1) * len(fx['fl']) <= 9:
         names.append('fl')
         vals['fl'] = fx.pop('fl')
+    elif kind == 'value-close':
+        # R15: two DISTINCT values that a tolerance-based comparison would call equal (absolute difference
+        # below 1e-8, or relative difference below 1e-5): partial results of the one must be refused for the other
+        a, b = rng.choice(CLOSE_PAIRS)
+        if rng.chance(0.5):
+            a, b = b, a
+        p1['fixed']['eps'] = a
+        fx['eps'] = b
+        r = 'nd:float64' if isinstance(a, list) else 'float'
+        p1['rep'] = dict(p1.get('rep', {}), eps=r)
+        p2['rep'] = dict(p1['rep'])
     elif kind == 'type-str':
         fx['fx0'] = str(fx['fx0'])
     elif kind == 'type-none' and 'z0' in fx:
@@ -1639,6 +1653,19 @@ def robust2_cases():
                     via='singles', idx_forms=['int', 'kw:int']))
     out.append(dict(small, p1=dict(rich, rep={'a': 'nd:int64', 'fl': 'nd:int16'}), p2=dict(rich, rep={'fl': 'list'}),
                     variant='representation-only', derive=True))
+    # every kind of parameter difference once, independent of the seed
+    for kind in ('unpacked-set-changed', 'type-str', 'type-none', 'shape-changed', 'grid-shrunk', 'grid-reordered',
+                 'value-changed', 'param-added-array'):
+        p1k = spec_of((2,), rich=True)
+        p2k = make_variant(core.Rng(20260930, 'c07-kinds-' + kind), p1k, kind)
+        if p2k is not None:
+            out.append(dict(small, p1=p1k, p2=p2k, variant=kind))
+    # R15: distinct but close parameter values (a tolerance-based equality would accept the old partial results)
+    for j, (a, b) in enumerate(CLOSE_PAIRS[:4] + CLOSE_PAIRS[7:8]):
+        r = {'eps': 'nd:float64' if isinstance(a, list) else 'float'}
+        out.append(dict(small, p1=dict(rich, fixed=dict(rich['fixed'], eps=a), rep=r),
+                        p2=dict(rich, fixed=dict(rich['fixed'], eps=b), rep=r), variant='value-close',
+                        ext='.json' if j % 2 else ''))
     # R13/R7: the parameters object of the interrupted runner is changed in place, then simulate() again
     for kind, p2 in (('fixed-changed', dict(rich, fixed=dict(rich['fixed'], fx0=8))),
                      ('param-added-scalar', dict(rich, fixed=dict(rich['fixed'], new0=0))),
@@ -1798,6 +1825,8 @@ def run_case(ctx, case, pts=None, tears=(0.0, 0.5, 1.0), hard=True, name='crash-
 def robust_branches(ctx, case, dk):
     """which robustness classes a scenario exercises (computed from the scenario)"""
     ctx.branch('diff:' + dk)
+    if case.get('variant') == 'value-close':
+        ctx.branch('R15:close-but-distinct-parameter-values')
     reps = set()
     for spec in (case['p1'], case['p2']):
         reps |= set(spec.get('rep', {}).values())
@@ -1937,7 +1966,8 @@ def check(ctx):
                              'R12:insertion-orders', 'R13:children-mutated',
                              'R13:parent-mutated-in-place-after-children-were-saved',
                              'R14:more-than-256-variations', 'R14:more-than-256-named-results',
-                             'R14:more-than-256-parameters']
+                             'R14:more-than-256-parameters', 'R15:close-but-distinct-parameter-values',
+                             'R7:same-runner-restart-after-a-periodic-save']
     try:
         rng = ctx.rng.fork('cases')
         for c in corpus_cases():
@@ -1952,6 +1982,19 @@ def check(ctx):
         for c in corpus_cases()[:2 if quick else 5] + ([] if quick else [gen_case(rng) for _ in range(20)]):
             if diff_kind(c) == 'same' and not c.get('same_runner'):
                 run_case_oracles_only(ctx, dict(c, delete=True))
+        # R7 x save period: the interrupted runner OBJECT is restarted after a periodic (500-repetition) save
+        # happened in the interrupted variation (an in-memory shortcut for "what I saved" would double count)
+        brng0 = ctx.rng.fork('boundary-same-runner')
+        for rm, ext, nv in ((502, '', 1),) if quick else ((502, '', 1), (501, '.json', 2), (1002, '', 1)):
+            c = dict(boundary_case(rm, ext, nvar=nv), same_runner=True)
+            kinds, _ = trace_kinds(c, ctx.scratch)
+            pts = boundary_points(kinds, brng0, extra=1)
+            if quick:
+                saves = [j for j, k in enumerate(kinds) if not k.endswith('call')]
+                pts = sorted({p_ for p_ in pts if p_ > (saves[0] if saves else 0)})[:8] + [len(kinds) // 2]
+            run_case(ctx, c, pts=sorted(set(pts)), tears=(), name='crash-restart-save-period-same-runner',
+                     extras_ok=False)
+            ctx.branch('R7:same-runner-restart-after-a-periodic-save')
         if not quick:
             for c in exhaustive_cases():
                 run_case(ctx, c)
